@@ -13,6 +13,7 @@ import (
 	"go/parser"
 	"go/token"
 	"regexp"
+	"regexp/syntax"
 	"sort"
 	"strings"
 	"testing"
@@ -223,6 +224,7 @@ func TestVerifC02(t *testing.T) {
 	ctxb := context.Background()
 	vfC02FindCorners(t)
 	vfC02SearchCorners(t)
+	vfC02WordCorners(t)
 
 	for it := 0; it < n; it++ {
 		// ---------------- (A) gatherMatches on generated candidate sets
@@ -464,6 +466,15 @@ func TestVerifC02(t *testing.T) {
 			return qs
 		})
 
+		// ---------------- (W) word-boundary regexps \bLIT\b (case-sensitive: wordMatchTree; case-insensitive: regexp engine)
+		{
+			lit := vfC02GenWordLit(r)
+			vfC02WordCheck(t, lit, vfC02WordDocs(lit, r, 4), false, "random")
+			if r.Chance(30) && !strings.ContainsAny(lit, "\n\x00") && utf8.ValidString(lit) {
+				vfC02WordCheck(t, lit, vfC02WordDocs(lit, r, 3), true, "random")
+			}
+		}
+
 		// ---------------- (D) end-to-end: ranges of single-substring and single-regexp queries
 		byName := map[string][]byte{}
 		for j := range docs {
@@ -475,8 +486,8 @@ func TestVerifC02(t *testing.T) {
 				desc  string
 				sub   string // non-empty: single content substring
 				cs    bool
-				re    string // non-empty: single regexp (source)
-				reAlt bool   // the regexp is a plain alternation that zoekt may answer from substring atoms
+				re    string   // non-empty: single regexp (source)
+				reAlt bool     // the regexp is a plain alternation that zoekt may answer from substring atoms
 				ors   []string // non-empty: or of content substrings
 			}
 			var qsp qspec
@@ -650,6 +661,7 @@ func TestVerifC02(t *testing.T) {
 //   - one G_samples case (the builder's rune-offset samples and endRunes),
 //   - for content and for file names one G_find case with the (document, rune offset) queries chosen by pick
 //     (pick gets the rune count of every document).
+//
 // Oracle: findOffset(r) must be the r-th rune boundary of the document decoded on its own (C02_rune_to_byte), for
 // every r <= rune count, except the one point where no sample can exist: the end of the corpus when it holds a
 // multiple of runeOffsetFrequency runes (outside findOffset's domain: callers pass candidate START offsets; see
@@ -964,4 +976,294 @@ func vfC02NameShard(t *testing.T, nameLen int) *indexData {
 	d := s.(*indexData)
 	vfC02NameShards[nameLen] = d
 	return d
+}
+
+// ---------------------------------------------------------------------------------------------------------------------
+// Word-boundary regexps \bLIT\b.  A case-sensitive one is evaluated by wordMatchTree (a bytes.Index loop that tests the
+// word/non-word transition at both ends of each occurrence) instead of the regexp engine; the reported ranges must all
+// the same be exactly the engine's successive non-overlapping matches (stdlib regexp FindAllIndex on the content / the
+// file name), in particular for runs of DIRECTLY ADJACENT occurrences (LITLIT: possible when the first and the last byte
+// of LIT are of different classes), occurrences separated by one word / one non-word byte, overlapping occurrences
+// ("a a a a"), at the start / end of the text.  Case-insensitive variants go through the engine: same oracle.
+
+func vfC02IsWordByte(c byte) bool {
+	return (c >= 'a' && c <= 'z') || (c >= 'A' && c <= 'Z') || (c >= '0' && c <= '9') || c == '_'
+}
+
+// vfC02WordScan runs the real wordMatchTree.matches on a document with the given bytes and returns the byte offsets of
+// its candidates (correspondence with Model/Ranges.v word_scan).
+func vfC02WordScan(word string, data []byte) (offs []uint64, sizesOK bool) {
+	if data == nil {
+		data = []byte{}
+	}
+	cp := &contentProvider{stats: &zoekt.Stats{}, _data: data}
+	wt := &wordMatchTree{word: word}
+	wt.matches(cp, costMax, map[matchTree]bool{})
+	sizesOK = true
+	for _, m := range wt.found {
+		offs = append(offs, uint64(m.byteOffset))
+		if int(m.byteMatchSz) != len(word) || m.fileName {
+			sizesOK = false
+		}
+	}
+	return offs, sizesOK
+}
+
+// the engine's successive matches of \bLIT\b on src
+func vfC02WordWant(lit string, src []byte, cs bool) [][2]int {
+	prefix := "(?i)"
+	if cs {
+		prefix = ""
+	}
+	re := regexp.MustCompile(prefix + `\b` + regexp.QuoteMeta(lit) + `\b`)
+	want := [][2]int{}
+	for _, ix := range re.FindAllIndex(src, -1) {
+		want = append(want, [2]int{ix[0], ix[1]})
+	}
+	return want
+}
+
+// a literal with the first/last byte classes chosen independently (word / non-word), 1..5 bytes
+func vfC02GenWordLit(r *vfRand) string {
+	wordB := []string{"a", "b", "g", "Z", "0", "_"}
+	nonB := []string{".", " ", "-", "(", ">", "$", "é", "\n", "世"}
+	mid := []string{"a", "b", "_", ".", " ", "-", "a", "é", "\n", "("}
+	pick := func(word bool) string {
+		if word {
+			return r.Pick(wordB)
+		}
+		if r.Chance(70) {
+			return r.Pick(nonB[:6])
+		}
+		return r.Pick(nonB)
+	}
+	first, last := r.Bool(), r.Bool()
+	k := r.Intn(5)
+	if k == 0 {
+		return pick(first)
+	}
+	s := pick(first)
+	for j := 1; j < k; j++ {
+		s += r.Pick(mid)
+	}
+	return s + pick(last)
+}
+
+// documents for a literal: deterministic shapes (runs of adjacent occurrences, one word / non-word byte between two
+// occurrences, start / end of text, upper-case variants) and, with r != nil, nrand random token sequences
+func vfC02WordDocs(lit string, r *vfRand, nrand int) []string {
+	L := lit
+	U := strings.ToUpper(lit)
+	var out []string
+	if r == nil {
+		out = []string{L, L + L, L + L + L, L + L + L + L, "x" + L + L, L + L + "x", " " + L + L, L + L + " ", "." + L + L + L + ".", "_" + L + L + L + "_",
+			L + "x" + L, L + "_" + L, L + " " + L, L + "." + L, L + "\n" + L, L + L + "\n" + L + L, "x" + L + " " + L + L + "\n" + L + L + L + "." + L + "_" + L,
+			"v := x" + L + L + L + "\nplain y" + L + " z\nx" + L + L, L + U + L, U + L + L + U + U, "é" + L + L + "é" + L, L[:len(L)-1] + L + L + L[:len(L)-1], L + L[1:] + L[1:] + L,
+			"xa a a", "no occurrence here"}
+		return out
+	}
+	toks := []string{L, L, L, L, "x", "_", " ", ".", "\n", "é", U, L[:len(L)-1], L[1:], "0", "-"}
+	for j := 0; j < nrand; j++ {
+		var b strings.Builder
+		for k := 1 + r.Intn(9); k > 0; k-- {
+			b.WriteString(r.Pick(toks))
+		}
+		out = append(out, b.String())
+	}
+	return out
+}
+
+// vfC02WordCheck: the documents (contents, or file names when fileName) in ONE shard; \bLIT\b case-sensitive and
+// case-insensitive, LineMatches and ChunkMatches.
+func vfC02WordCheck(t *testing.T, lit string, texts []string, fileName bool, label string) {
+	ctxb := context.Background()
+	var docs []Document
+	seen := map[string]bool{}
+	for j, x := range texts {
+		if fileName {
+			x = strings.NewReplacer("\n", " ", "\x00", " ").Replace(x)
+			if j%2 == 0 { // a unique name without touching one end of the text
+				x = fmt.Sprintf("%d/ %s", j, x)
+			} else {
+				x = fmt.Sprintf("%s /%d", x, j)
+			}
+			if seen[x] {
+				continue
+			}
+			seen[x] = true
+			docs = append(docs, Document{Name: x, Content: []byte("c\n")})
+		} else {
+			docs = append(docs, Document{Name: fmt.Sprintf("d%d", j), Content: []byte(x)})
+		}
+	}
+	s := vfC03Searcher(t, docs)
+	re, err := syntax.Parse(`\b`+regexp.QuoteMeta(lit)+`\b`, syntax.ClassNL|syntax.PerlX|syntax.UnicodeGroups)
+	if err != nil {
+		t.Fatalf("parse \\b%q\\b: %v", lit, err)
+	}
+	kind := "content"
+	if fileName {
+		kind = "filename"
+	}
+	classOf := func(b byte) string {
+		if vfC02IsWordByte(b) {
+			return "w"
+		}
+		return "n"
+	}
+	litClass := classOf(lit[0]) + classOf(lit[len(lit)-1])
+	src := func(d Document) []byte {
+		if fileName {
+			return []byte(d.Name)
+		}
+		return d.Content
+	}
+	for _, cs := range []bool{true, false} {
+		q := &query.Regexp{Regexp: re, CaseSensitive: cs, Content: !fileName, FileName: fileName}
+		for _, chunkMode := range []bool{false, true} {
+			res, err := s.Search(ctxb, q, &zoekt.SearchOptions{ChunkMatches: chunkMode, NumContextLines: 1})
+			if err != nil {
+				t.Fatalf("search \\b%q\\b: %v", lit, err)
+			}
+			got := map[string][][2]int{}
+			for _, fm := range res.Files {
+				rs := [][2]int{}
+				for _, cm := range fm.ChunkMatches {
+					for _, rg := range cm.Ranges {
+						if cm.FileName == fileName {
+							rs = append(rs, [2]int{int(rg.Start.ByteOffset), int(rg.End.ByteOffset)})
+						}
+					}
+				}
+				for _, lm := range fm.LineMatches {
+					for _, f := range lm.LineFragments {
+						if lm.FileName == fileName {
+							rs = append(rs, [2]int{int(f.Offset), int(f.Offset) + f.MatchLength})
+						}
+					}
+				}
+				sort.Slice(rs, func(a, b int) bool { return rs[a][0] < rs[b][0] })
+				got[fm.FileName] = rs
+			}
+			for _, d := range docs {
+				c := src(d)
+				matches := vfC02WordWant(lit, c, cs)
+				want := matches
+				if !chunkMode && !fileName { // line mode: each match broken on newlines, empty pieces dropped
+					want = [][2]int{}
+					for _, m := range matches {
+						st := m[0]
+						for p := m[0]; p <= m[1]; p++ {
+							if p == m[1] || c[p] == '\n' {
+								if p > st {
+									want = append(want, [2]int{st, p})
+								}
+								st = p + 1
+							}
+						}
+					}
+				}
+				rs, reported := got[d.Name]
+				replay := map[string]any{"docs": vfC03DocsReplay([]Document{d}), "literal": lit, "query": fmt.Sprintf("regexp(\\b%s\\b, cs=%v, filename=%v)", regexp.QuoteMeta(lit), cs, fileName),
+					"chunks": chunkMode, "file": d.Name, "ranges": fmt.Sprint(rs), "want": fmt.Sprint(want), "reported": reported, "generator": label,
+					"note": "one document of a shard holding all generated documents for this literal; want = regexp.FindAllIndex (broken on newlines in line mode)"}
+				switch {
+				case len(matches) > 0 && !reported:
+					vfOracleFail(fmt.Sprintf("search-word:chunks=%v:%s-document-missing", chunkMode, kind),
+						"\\bLIT\\b: a document in which the regexp engine finds a match is not reported at all", replay)
+				case reported && fmt.Sprint(want) != fmt.Sprint(rs):
+					vfOracleFail(fmt.Sprintf("search-word:chunks=%v:%s-ranges", chunkMode, kind),
+						fmt.Sprintf("\\bLIT\\b: the reported ranges are not exactly the regexp engine's successive non-overlapping matches %v", want), replay)
+				}
+				if cs && chunkMode && reported && len(c) <= 160 { // end-to-end correspondence: gather (word_cands ...) of the model
+					var oc []vfCand
+					for _, x := range rs {
+						oc = append(oc, vfCand{fileName, uint32(x[0]), uint32(x[1] - x[0])})
+					}
+					adj := 0
+					for j := 1; j < len(matches); j++ {
+						if matches[j-1][1] == matches[j][0] {
+							adj++
+						}
+					}
+					vfCase(cApp("G_wordsearch", cBool(fileName), cBytes([]byte(lit)), cBytes(c), cN(uint64(len(d.Name))), vfCandsCoq(oc)),
+						vfKey("wordsearch:", fileName, lit, "|", string(c)), len(matches) > 1, []string{"G_wordsearch", "lit=" + litClass, fmt.Sprint("adjacent=", adj > 0)},
+						map[string]any{"literal": lit, "text": string(c), "ranges": fmt.Sprint(rs)})
+				}
+			}
+		}
+	}
+	if !fileName { // the scan loop itself on every document's bytes
+		for _, d := range docs {
+			c := d.Content
+			if len(c) > 160 {
+				continue
+			}
+			raw, sizesOK := vfC02WordScan(lit, c)
+			want := vfC02WordWant(lit, c, true)
+			// observable = what gatherMatches keeps of the candidates (a candidate starting inside the previous kept one is
+			// dropped), so a scan that also yields overlapping genuine matches is not flagged; every raw candidate must be
+			// a genuine match of \bLIT\b at its position
+			isW := func(i int) bool { return i >= 0 && i < len(c) && vfC02IsWordByte(c[i]) }
+			var offs []uint64
+			bad := !sizesOK
+			for _, o := range raw {
+				e := int(o) + len(lit)
+				if e > len(c) || !bytes.HasPrefix(c[o:], []byte(lit)) || isW(int(o)-1) == isW(int(o)) || isW(e-1) == isW(e) {
+					bad = true
+				}
+				if len(offs) == 0 || int(offs[len(offs)-1])+len(lit) <= int(o) {
+					offs = append(offs, o)
+				}
+			}
+			bad = bad || len(offs) != len(want)
+			for j := 0; !bad && j < len(offs); j++ {
+				bad = int(offs[j]) != want[j][0]
+			}
+			if bad {
+				vfOracleFail("word-scan", "wordMatchTree.matches: the candidates (after gatherMatches' overlap rule) are not the regexp engine's successive matches of \\bLIT\\b",
+					map[string]any{"literal": lit, "content": string(c), "got_offsets": fmt.Sprint(raw), "want": fmt.Sprint(want)})
+			}
+			adj := false
+			for j := 1; j < len(want); j++ {
+				adj = adj || want[j-1][1] == want[j][0]
+			}
+			vfCase(cApp("G_word", cBytes([]byte(lit)), cBytes(c), cNList(offs)), vfKey("word:", lit, "|", string(c)), len(want) > 1,
+				[]string{"G_word", "lit=" + litClass, fmt.Sprint("adjacent=", adj)}, map[string]any{"literal": lit, "content": string(c), "offsets": fmt.Sprint(offs)})
+		}
+	}
+}
+
+// deterministic part, once per run: literals of every first/last byte class combination against the fixed document shapes
+// (content and file names), and the byte classes of characterClass through the scan loop.
+func vfC02WordCorners(t *testing.T) {
+	lits := []string{
+		"get", "a", "x1", "foo_bar", "a a", "a.b", "Get", // word .. word
+		".get", "->next", "$x", " a", "éa", "(a", // non-word .. word
+		"get(", "x.", "a ", "aé", "f()", "next->", // word .. non-word
+		".", "->", "..", "(a)", ".a.", "é", "世", " ", "- -", // non-word .. non-word
+		"a\nb", "a\n", "\na", // literals holding a newline (line mode breaks the ranges)
+	}
+	for _, lit := range lits {
+		texts := vfC02WordDocs(lit, nil, 0)
+		vfC02WordCheck(t, lit, texts, false, "corner")
+		if !strings.Contains(lit, "\n") {
+			vfC02WordCheck(t, lit, texts, true, "corner")
+		}
+	}
+	// every byte value in front of "a ": the occurrence at 3k+1 is accepted iff byte k is no word character
+	var data []byte
+	var want []uint64
+	for b := 0; b < 256; b++ {
+		data = append(data, byte(b), 'a', ' ')
+		if !vfC02IsWordByte(byte(b)) {
+			want = append(want, uint64(3*b+1))
+		}
+	}
+	offs, _ := vfC02WordScan("a", data)
+	if fmt.Sprint(offs) != fmt.Sprint(want) {
+		vfOracleFail("word-scan:byte-classes", "wordMatchTree.matches: \\ba\\b after each byte value: accepted exactly after non-word bytes",
+			map[string]any{"got_offsets": fmt.Sprint(offs), "want": fmt.Sprint(want)})
+	}
+	vfCase(cApp("G_word", cBytes([]byte("a")), cBytes(data), cNList(offs)), "word:byte-classes", true, []string{"G_word", "byte-classes"}, map[string]any{"offsets": fmt.Sprint(offs)})
 }
